@@ -570,6 +570,55 @@ func C08(c *ev.Ctx) {
 			}
 		}
 	}
+	// ---- partial files (-ignore-errors) carry the same header and footer; a package whose clause differs from its
+	// directory name is required under its import path ----
+	{
+		root := filepath.Join(c.Scratch, "c08part")
+		_ = os.RemoveAll(root)
+		_ = os.MkdirAll(root, 0755)
+		gomod := fmt.Sprintf("module part.example/m\n\ngo 1.22\n\nrequire github.com/goose-lang/goose v0.0.0\n\nreplace github.com/goose-lang/goose => %s\n", c.Repo)
+		_ = os.WriteFile(filepath.Join(root, "go.mod"), []byte(gomod), 0644)
+		sum, _ := os.ReadFile(filepath.Join(c.Repo, "go.sum"))
+		_ = os.WriteFile(filepath.Join(root, "go.sum"), sum, 0644)
+		bad := "\nfunc Bad(x uint64) uint64 {\n\tdefer func() {}()\n\treturn x\n}\n"
+		write := func(dir, src string) {
+			_ = os.MkdirAll(filepath.Join(root, dir), 0755)
+			_ = os.WriteFile(filepath.Join(root, dir, "a.go"), []byte(src), 0644)
+		}
+		write("journal", "package jrnl\n\nfunc Val() uint64 {\n\treturn 3\n}\n")
+		write("partnone", "package partnone\n\nimport \"part.example/m/journal\"\n\nfunc Ok() uint64 {\n\treturn jrnl.Val()\n}\n"+bad)
+		write("partdisk", "package partdisk\n\nimport \"github.com/goose-lang/goose/machine/disk\"\n\nfunc Ok() uint64 {\n\treturn disk.BlockSize\n}\n"+bad)
+		write("usejrnl", "package usejrnl\n\nimport \"part.example/m/journal\"\n\nfunc Ok() uint64 {\n\treturn jrnl.Val() + 1\n}\n")
+		out := filepath.Join(root, "_out")
+		args := []string{"-out", out, "-dir", root, "-ignore-errors", "./journal", "./partnone", "./partdisk", "./usejrnl"}
+		cmd := exec.Command(goose, args...)
+		cmd.Env = goEnv()
+		msgb, _ := cmd.CombinedOutput()
+		for _, pc := range []struct{ pkg, ffi string }{{"partnone", "none"}, {"partdisk", "disk"}, {"usejrnl", "none"}, {"journal", "none"}} {
+			b, err := os.ReadFile(filepath.Join(out, "part_example", "m", pc.pkg+".v"))
+			evals++
+			if err != nil {
+				c.Violation("c08.file-placement", fmt.Sprintf("package %s (-ignore-errors): no file at the path derived from its import path\n%s", pc.pkg, firstLines(string(msgb), 6)), map[string]string{"tree.txt": listTree(out)})
+				continue
+			}
+			text := string(b)
+			hasSection := strings.Contains(text, "\nSection code.\n")
+			hasFooter := strings.HasSuffix(strings.TrimRight(text, "\n"), "End code.")
+			hasPrelude := strings.Contains(text, "ffi."+pc.ffi+"_prelude.")
+			what := ""
+			switch {
+			case pc.ffi == "none" && (!hasSection || !hasFooter):
+				what = fmt.Sprintf("no FFI: expected the generic section with its closing footer (Section code. present=%v, End code. present=%v)", hasSection, hasFooter)
+			case pc.ffi != "none" && (!hasPrelude || hasSection || hasFooter):
+				what = fmt.Sprintf("FFI %s: expected its prelude and no section (prelude=%v, Section code.=%v, End code.=%v)", pc.ffi, hasPrelude, hasSection, hasFooter)
+			case (pc.pkg == "partnone" || pc.pkg == "usejrnl") && !strings.Contains(text, "\nFrom Goose Require part_example.m.journal.\n"):
+				what = "the import of part.example/m/journal (whose package clause says jrnl) must be required under its import path: From Goose Require part_example.m.journal."
+			}
+			if what != "" {
+				c.Violation("c08.header", fmt.Sprintf("package %s (translated with -ignore-errors next to a declaration that does not translate): %s", pc.pkg, what), map[string]string{"emitted.v": text})
+			}
+		}
+	}
 	c.AddTraces(evals)
 	c.Set("cases", len(cases))
 	c.Set("evaluations", evals)
